@@ -189,6 +189,32 @@ fn fresh_thread_twin(spec: &Spec, st: &mut Stats, sink: &Sink) {
                 .collect()
         })
     };
+    // instances of the same view at the other scalars run in this thread first: state shared between
+    // instantiations (a memo keyed by window length, say) must not leak from one scalar type into another
+    // (in a thread of its own, so that the other scalars really are the first to run there)
+    let (s3, h3) = (spec.clone(), hist.clone());
+    let mixed = std::thread::spawn(move || {
+        crate::spec::ADD_KEEPS_HISTORY.with(|c| c.set(true));
+        let _ = guard(|| {
+            let mut a = build::<f32>(&s3);
+            let mut b = build::<crate::lo::Lo>(&s3);
+            for x in h3.iter().take(6) {
+                a.update(*x as f32);
+                b.update(<crate::lo::Lo as Scalar>::of(*x));
+                let _ = (a.last(), b.last());
+            }
+        });
+        guard(|| {
+            let mut v = build::<f64>(&s3);
+            h3.iter()
+                .map(|x| {
+                    v.update(*x);
+                    opt_key(v.last())
+                })
+                .collect::<Vec<String>>()
+        })
+    })
+    .join();
     let here = run(spec, &hist);
     let (s2, h2) = (spec.clone(), hist.clone());
     let there = std::thread::spawn(move || {
@@ -208,10 +234,17 @@ fn fresh_thread_twin(spec: &Spec, st: &mut Stats, sink: &Sink) {
     st.transitions += 2 * len as u64;
     st.oracle_evals += 1;
     st.bump("fresh_thread_twins", 1);
+    if let (Ok(Ok(m)), Ok(Ok(b))) = (&mixed, &there) {
+        if m != b {
+            let k = m.iter().zip(b.iter()).position(|(x, y)| x != y).unwrap_or(0);
+            sink.push(Violation::new("C17", spec, "fresh-thread-twin", "f64", &hist[..=k], format!("the same view fed the same inputs reports {} in a thread in which instances at f32 and at the coarse scalar ran first, but {} in a fresh thread", m[k], b[k])));
+            return;
+        }
+    }
     if let (Ok(a), Ok(Ok(b))) = (here, there) {
         if a != b {
             let k = a.iter().zip(b.iter()).position(|(x, y)| x != y).unwrap_or(0);
-            sink.push(Violation::new("C17", spec, "fresh-thread-twin", "f64", &hist[..=k], format!("the same view fed the same inputs reports {} in a worker thread that has run other instances, but {} in a fresh thread", a[k], b[k])));
+            sink.push(Violation::new("C17", spec, "fresh-thread-twin", "f64", &hist[..=k], format!("the same view fed the same inputs reports {} in a worker thread that has run other instances (also at f32 and at the coarse scalar), but {} in a fresh thread", a[k], b[k])));
         }
     }
 }
